@@ -178,6 +178,11 @@ func ruleGuardSuffices(c *Ctx) {
 					return
 				}
 				s, idx = y.X, y.Index
+			case *ssa.Index:
+				if bt, ok := y.X.Type().Underlying().(*types.Basic); !ok || bt.Info()&types.IsString == 0 {
+					return
+				}
+				s, idx = y.X, y.Index
 			default:
 				return
 			}
